@@ -3,9 +3,11 @@ package props
 import (
 	"encoding/json"
 	"fmt"
+	"runtime"
 	"runtime/debug"
 	"strings"
 	"testing"
+	"time"
 
 	"github.com/ovn-org/libovsdb/ovsdb"
 	"pgregory.net/rapid"
@@ -24,15 +26,36 @@ type c19TxnCase struct {
 
 // transactSafely runs a transaction under recover.
 func transactSafely(db *kit.DB, ops []ovsdb.Operation) (out kit.TxnOutcome, pval interface{}, stack string) {
-	defer func() {
-		if r := recover(); r != nil {
-			pval = r
-			stack = string(debug.Stack())
-		}
+	type answer struct {
+		out   kit.TxnOutcome
+		pval  interface{}
+		stack string
+	}
+	done := make(chan answer, 1)
+	go func() {
+		var a answer
+		defer func() {
+			if r := recover(); r != nil {
+				a.pval = r
+				a.stack = string(debug.Stack())
+			}
+			done <- a
+		}()
+		a.out = db.Transact(ops)
 	}()
-	out = db.Transact(ops)
-	return
+	select {
+	case a := <-done:
+		return a.out, a.pval, a.stack
+	case <-time.After(c19AnswerBound):
+		// the database stopped answering (its goroutine is left behind: the case fails anyway)
+		buf := make([]byte, 1<<16)
+		buf = buf[:runtime.Stack(buf, true)]
+		return out, fmt.Sprintf("no answer within %v", c19AnswerBound), "/repo/hang\n" + string(buf)
+	}
 }
+
+// c19AnswerBound: no operation of the harness waits (waits with a timeout are not sent).
+const c19AnswerBound = 20 * time.Second
 
 // TestC19Txn: structurally corrupted transactions (dropped members, swapped value
 // types, out-of-domain numbers, zero divisors, nulls, empty arrays where pairs are
